@@ -160,6 +160,10 @@ pub struct Case10W {
     pub rows: Vec<Vec<Option<(u8, u8, u8)>>>,
     /// Some((n, seed)): n rows derived from the seed instead of `rows`
     pub many: Option<(u32, u64)>,
+    /// with selections only: 1 = --sort-by .s, 2 = --sort-by .s DESC, where .s is a member of
+    /// the input that is not selected (duplicates are removed before the sort sees the rows)
+    #[serde(default)]
+    pub sort: u8,
 }
 
 pub const FAMILIES: u8 = 9;
@@ -227,20 +231,27 @@ impl Check for C10Wide {
         let explicit = (0usize..=3, 0u8..3, prop::bool::weighted(0.25), vec(0u8..FAMILIES, 1..3), vec(vec(cell, 3), 0..=40)).prop_map(|(cols, titles, csv, fams, rows)| {
             let width = cols.max(1);
             let rows = rows.iter().map(|r| r.iter().take(width).map(|(a, f, m, sp)| if cols > 0 && *a < 2 { None } else { Some((fams[*f as usize % fams.len()], *m, *sp)) }).collect()).collect();
-            Case10W { cols, titles, csv: csv && cols > 0, rows, many: None }
+            Case10W { cols, titles, csv: csv && cols > 0, rows, many: None, sort: 0 }
         });
-        let many = (0usize..=2, 0u8..3, prop::bool::weighted(0.2), 1_000u32..max_many, any::<u64>()).prop_map(|(cols, titles, csv, n, seed)| Case10W { cols, titles, csv: csv && cols > 0, rows: vec![], many: Some((n, seed)) });
-        prop_oneof![60 => explicit, 1 => many].boxed()
+        let many = (0usize..=2, 0u8..3, prop::bool::weighted(0.2), 1_000u32..max_many, any::<u64>()).prop_map(|(cols, titles, csv, n, seed)| Case10W { cols, titles, csv: csv && cols > 0, rows: vec![], many: Some((n, seed)), sort: 0 });
+        (prop_oneof![60 => explicit, 1 => many], 0u8..6).prop_map(|(mut c, s)| {
+            if c.cols > 0 && s < 3 {
+                c.sort = s;
+            }
+            c
+        }).boxed()
     }
     fn check(&self, case: &Case10W) -> CaseResult {
         let cells = Self::cells(case);
         let mut input = String::new();
-        for r in &cells {
+        let skey = |i: usize| (i * 7 + 3) % 4;
+        for (ri, r) in cells.iter().enumerate() {
             if case.cols == 0 {
                 let (f, m, sp) = r[0].unwrap_or((0, 0, 0));
                 input.push_str(&near_dup(f, m, sp));
             } else {
-                let members: Vec<String> = r.iter().enumerate().filter_map(|(c, v)| v.map(|(f, m, sp)| format!("\"c{}\":{}", c, near_dup(f, m, sp)))).collect();
+                let mut members: Vec<String> = r.iter().enumerate().filter_map(|(c, v)| v.map(|(f, m, sp)| format!("\"c{}\":{}", c, near_dup(f, m, sp)))).collect();
+                members.push(format!("\"s\":{}", skey(ri)));
                 input.push_str(&format!("{{{}}}", members.join(",")));
             }
             input.push('\n');
@@ -256,6 +267,10 @@ impl Check for C10Wide {
         }
         let plain = run(&args, input.as_bytes());
         args.push("--unique".into());
+        let sorting = case.cols > 0 && case.sort > 0;
+        if sorting {
+            args.push(if case.sort == 2 { "--sort-by=.s=DESC".to_string() } else { "--sort-by=.s".to_string() });
+        }
         let uniq = run(&args, input.as_bytes());
         if !plain.res.is_ok() || !uniq.res.is_ok() {
             return CaseResult::Fail(format!("jawk failed: {} / {} (args {:?})", plain.res.short(), uniq.res.short(), args));
@@ -288,6 +303,14 @@ impl Check for C10Wide {
                 respelled = true;
             }
         }
+        if sorting {
+            // the survivors (first occurrences in arrival order) are then sorted, stably
+            if case.sort == 2 {
+                keep.sort_by_key(|i| std::cmp::Reverse(skey(*i)));
+            } else {
+                keep.sort_by_key(|i| skey(*i));
+            }
+        }
         let exp: Vec<&[u8]> = keep.iter().map(|i| all[*i]).collect();
         let near = keep.iter().any(|i| keep.iter().any(|j| i != j && cells[*i].iter().zip(cells[*j].iter()).any(|(a, b)| matches!((a, b), (Some(x), Some(y)) if x.0 == y.0 && x.1 != y.1))));
         let removed = cells.len() - keep.len();
@@ -309,6 +332,7 @@ impl Check for C10Wide {
                 .class(["no_selection", "one_selection", "two_selections", "three_selections"][case.cols])
                 .class_if(case.titles > 0 && case.cols >= 2, "selections_share_a_title")
                 .class_if(case.csv, "csv")
+                .class_if(sorting, "sorted_by_a_member_that_is_not_selected")
                 .class_if(respelled, "duplicate_with_different_spelling")
                 .class_if(near, "near_duplicates_both_kept")
                 .class_if(case.many.is_some(), "thousands_of_rows")
@@ -319,7 +343,7 @@ impl Check for C10Wide {
 }
 
 pub fn run_all(ctx: &mut Ctx) {
-    ctx.rule = "C10.equality: jawk's = matrix over the whole universe must be an equivalence and agree with structural/numeric equality (exhaustive over pairs). C10.unique: 0..40 rows whose 0..3 selected values come from a per-case pool of 1..6 universe values (numerically equal spellings, escape variants, nested equal collections) or are absent; oracle: output with --unique = first-occurrence filter of the output without it under jawk's own = relation per selected value (absent only equals absent). non-trivial = at least one removed duplicate whose text differs from its first occurrence and >= 2 kept rows. C10.unique_wide: rows whose 0..3 selected values are large near-duplicates (nine families: 65- and 241-character strings, 31-element arrays, 13-member objects, depth-8 nesting, each with three members that differ only at the very end, and two spellings per member), selections that share a title, JSON or csv output, 0..40 explicit rows or 1000..5000 (70000 thorough) rows derived from a seed; oracle: first-occurrence filter of the plain output under equality by (family, member) per column; non-trivial = something was removed and two kept rows differ only in the tail of a value".into();
+    ctx.rule = "C10.equality: jawk's = matrix over the whole universe must be an equivalence and agree with structural/numeric equality (exhaustive over pairs). C10.unique: 0..40 rows whose 0..3 selected values come from a per-case pool of 1..6 universe values (numerically equal spellings, escape variants, nested equal collections) or are absent; oracle: output with --unique = first-occurrence filter of the output without it under jawk's own = relation per selected value (absent only equals absent). non-trivial = at least one removed duplicate whose text differs from its first occurrence and >= 2 kept rows. C10.unique_wide: rows whose 0..3 selected values are large near-duplicates (nine families: 65- and 241-character strings, 31-element arrays, 13-member objects, depth-8 nesting, each with three members that differ only at the very end, and two spellings per member), selections that share a title, JSON or csv output, optionally --sort-by on a member that is not selected (the survivors are the first occurrences in arrival order, then sorted), 0..40 explicit rows or 1000..5000 (70000 thorough) rows derived from a seed; oracle: first-occurrence filter of the plain output under equality by (family, member) per column; non-trivial = something was removed and two kept rows differ only in the tail of a value".into();
     ctx.assumptions = vec!["universe excludes -0 and member-order permutations (quantifier)".into()];
     run_equality(ctx);
     C10Unique.run(ctx);
